@@ -103,7 +103,10 @@ def check(ctx):
                               ("list", (("tuple", (("sub", topics, ("const", 0)), ("sub", topics, ("const", 1)))),))]
                 else:
                     shapes = [topics, ("list", (topics,))]
-                ctx.ob("S-NORM", "%s.%s encodes the topics as given (one of the stated shapes)" % (cq, op), tl in shapes,
+                def _shape_ok(t):
+                    # (a conditional expression choosing between two of the stated shapes: `[t] if isinstance(t, str) else t`)
+                    return t in shapes or (isinstance(t, tuple) and t[:1] == ("ifexp",) and len(t) >= 3 and _shape_ok(t[1]) and _shape_ok(t[2]))
+                ctx.ob("S-NORM", "%s.%s encodes the topics as given (one of the stated shapes)" % (cq, op), _shape_ok(tl),
                        where=where(enc[-1]) if enc else w, function=fn, construct="%s.%s/topics" % (cls.qual, op),
                        msg="topic list reaching encode() is %s" % show(tl))
                 # window guard entailed on the accepting path
